@@ -172,4 +172,50 @@ theorem getFrom_drop (t : List Int) : ∀ (n i : Nat), i + n = t.length → getF
     have hd : t.drop i = t[i] :: t.drop (i + 1) := (List.getElem_cons_drop hi).symm
     simp only [getFrom, getAt, rd, List.getElem?_eq_getElem hi, ih, bind, Except.bind, hd]
 
+/-- the index-sequence expansion `get<Is>(t)...` yields all elements in order and never leaves the tuple -/
+theorem getAll_ok (t : List Int) : getAll t = .ok t := by
+  have := getFrom_drop t t.length 0 (by omega)
+  simpa [getAll] using this
+
+
+section rel
+variable {α β : Type}
+
+/-- an order relation that never holds in both directions -/
+def Asymm (lt : α → α → Bool) : Prop := ∀ x y, lt x y = true → lt y x = false
+
+/-- a strict total order whose equivalence is `eq` -/
+structure StrictTotal (eq lt : α → α → Bool) : Prop where
+  irrefl : ∀ x, lt x x = false
+  trans : ∀ x y z, lt x y = true → lt y z = true → lt x z = true
+  tri : ∀ x y, lt x y = true ∨ eq x y = true ∨ lt y x = true
+  eq_iff : ∀ x y, eq x y = true ↔ x = y
+
+theorem StrictTotal.asymm {eq lt : α → α → Bool} (h : StrictTotal eq lt) : Asymm lt := by
+  intro x y hxy
+  cases hyx : lt y x with
+  | false => rfl
+  | true => have := h.trans x y x hxy hyx; rw [h.irrefl] at this; cases this
+
+/-- the equality fold of tuple `operator==` decides element-wise equality -/
+theorem eqFold_iff {eq : α → α → Bool} (heq : ∀ x y, eq x y = true ↔ x = y) :
+    ∀ (a b : List α), a.length = b.length → (eqFold eq a b = true ↔ a = b)
+  | [], [], _ => by simp [eqFold]
+  | x :: xs, y :: ys, h => by
+    have ih := eqFold_iff heq xs ys (by simpa using h)
+    simp [eqFold, heq, ih]
+  | [], _ :: _, h => by simp at h
+  | _ :: _, [], h => by simp at h
+
+end rel
+
+theorem concat_eq (t1 t2 : List Int) : concat t1 t2 = .ok (t1 ++ t2) := by
+  simp [concat, getAll_ok, bind, Except.bind]
+
+theorem catGo_eq : ∀ (ts : List (List Int)) (r : List Int), catGo r ts = .ok (r ++ ts.flatten)
+  | [], r => by simp [catGo, getAll_ok]
+  | t :: ts, r => by
+    simp [catGo, concat_eq, bind, Except.bind, catGo_eq ts (r ++ t), List.append_assoc]
+
+
 end Tetl.C20
